@@ -895,6 +895,28 @@ def _r10_reported_file_is_opened_file(repo, rep):
                        norm(given) if given is not None else '(none)'))
 
 
+def _cache_inits(f):
+    """(cache name, key expression, node) for every place in f that makes
+    sure an entry of a per-namespace parser table exists: `X.qualcache[K] =
+    <new container>` or `X.classnames.setdefault(K, <new container>)`"""
+    out = []
+    for n in walk_no_nested(f.node):
+        if isinstance(n, ast.Assign) and len(n.targets) == 1 and \
+                isinstance(n.targets[0], ast.Subscript) and \
+                isinstance(n.targets[0].value, ast.Attribute) and \
+                n.targets[0].value.attr in ('qualcache', 'classnames') and \
+                'parser' in (dotted(n.targets[0].value) or ''):
+            out.append((n.targets[0].value.attr, n.targets[0].slice, n))
+        elif isinstance(n, ast.Call) and \
+                isinstance(n.func, ast.Attribute) and \
+                n.func.attr == 'setdefault' and len(n.args) == 2 and \
+                isinstance(n.func.value, ast.Attribute) and \
+                n.func.value.attr in ('qualcache', 'classnames') and \
+                'parser' in (dotted(n.func.value) or ''):
+            out.append((n.func.value.attr, n.args[0], n))
+    return out
+
+
 def _r11_cache_key_is_target_namespace(repo, rep):
     """C09.R11: where a function selects the target namespace of the parser
     (`parser.target_namespace = X`) and makes sure the per-namespace tables
@@ -912,17 +934,13 @@ def _r11_cache_key_is_target_namespace(repo, rep):
                    'parser.target_namespace') and
                not (isinstance(n.value, ast.Constant) and
                     n.value.value is None)]
-        inits = [n for n in walk_no_nested(f.node) if isinstance(n, ast.Assign)
-                 and isinstance(n.targets[0], ast.Subscript) and
-                 (dotted(n.targets[0].value) or '').split('.')[-1] in (
-                     'qualcache', 'classnames') and
-                 'parser' in (dotted(n.targets[0].value) or '')]
+        inits = _cache_inits(f)
         if not tgt or not inits:
             continue
         r11.sites += 1
         r11.functions.add(f.fq)
         x = norm(tgt[-1].value)
-        keys = {norm(n.targets[0].slice) for n in inits}
+        keys = {norm(k) for _c, k, _n in inits}
         ok = keys == {x}
         r11.ob(ok, f.qualname, {'target_namespace': x, 'keys': sorted(keys)})
         if not ok:
@@ -1019,15 +1037,13 @@ def namespace_caches_are_set_up_together(repo, rep):
     n = 0
     for f in repo.module(MOF).all_funcs():
         inits = {}
-        for a in walk_no_nested(f.node):
-            if isinstance(a, ast.Assign) and len(a.targets) == 1 and \
-                    isinstance(a.targets[0], ast.Subscript) and \
-                    isinstance(a.targets[0].value, ast.Attribute) and \
-                    a.targets[0].value.attr in CACHES and \
-                    isinstance(a.value, (ast.List, ast.Dict, ast.Call)) and \
-                    not (isinstance(a.value, ast.List) and a.value.elts):
-                inits.setdefault(norm(a.targets[0].slice), {})[
-                    a.targets[0].value.attr] = a
+        for cname, key, node in _cache_inits(f):
+            # (a list that is created with its first element, in the
+            # `except KeyError` of a lazy append, is not a set-up site)
+            if isinstance(node, ast.Assign) and \
+                    isinstance(node.value, ast.List) and node.value.elts:
+                continue
+            inits.setdefault(norm(key), {})[cname] = node
         for key, got in sorted(inits.items()):
             n += 1
             r.sites += 1
